@@ -1,7 +1,8 @@
 (* C11 — proofs about the model: re-exports the parts; short proofs of statements of Properties.v. *)
 From Coq Require Import List NArith Bool Lia.
 From V.C11 Require Import Model.
-From V.C11 Require Export PBase PAlt PInv PIso PLedger PTimer PSend PLazy PGate.
+From V.C11 Require Before.
+From V.C11 Require Export PBase PAlt PHInv PInv PIso PLedger PTimer PSend PLazy PGate.
 Import ListNotations.
 Open Scope N_scope.
 
@@ -14,12 +15,51 @@ Qed.
 
 
 (* ---- statements of Properties.v whose proofs are a few lines ---- *)
-Lemma C11_alternation_refuted_pf :
-  exists (c : cfg) (ops : list op),
-    grammar (fun _ => false) (events (fst (run c init ops))) = None.
+(* ---- finding class 1, before and after its repair ---- *)
+(* the history of the witness w3_slow_close_overlap in the model of the code before the repair (Before.v):
+   the user closes a stream whose Connection task is slow to close, the remote re-opens, the old task
+   finishes: Opened Opened Closed *)
+Definition w_slow_close_before : list Before.op :=
+  [Before.Established 0; Before.CmdOpen 0; Before.SubIn 0; Before.HsIn 0 true; Before.SubOut 0; Before.HsIn 0 true;
+   Before.HsOut 0 true; Before.Gate 0; Before.CmdClose 0; Before.SubIn 0; Before.HsIn 0 true; Before.Validate 0 true;
+   Before.HsIn 0 true; Before.SubOut 0; Before.HsOut 0 true; Before.Release 0].
+Definition cfg_w_before : Before.cfg := Before.mkCfg true true (fun _ => false).
+
+Lemma C11_alternation_before_fix_refuted_pf :
+  Before.events (fst (Before.run cfg_w_before Before.init w_slow_close_before)) =
+    [Before.UOpened 0 Before.DOut; Before.UValidate 0; Before.UOpened 0 Before.DIn; Before.UClosed 0; Before.UClosed 0] /\
+  Before.grammar (fun _ => false) (Before.events (fst (Before.run cfg_w_before Before.init w_slow_close_before))) = None /\
+  events (fst (run cfg_w init w_slow_close)) = [UOpened 0 DOut; UClosed 0; UValidate 0; UOpened 0 DIn].
 Proof.
- exists cfg_w, w_slow_close. vm_compute. reflexivity.
+ vm_compute. repeat split; reflexivity.
 Qed.
+
+Lemma reachable_HInv c s : reachable c s -> HInv s.
+Proof.
+  induction 1 as [|s o s' ev cl R HI S]; [apply HInv_init|]. destruct (step_HInv _ _ _ _ _ _ HI S) as [_ H']. exact H'.
+Qed.
+
+Lemma C11_closed_on_disconnect_pf :
+  forall (c : cfg) (s : st) (p : peer) (k : N) (s' : st) (ev : list uev) (calls : list call),
+    reachable c s -> conn s p = true -> ps s p = Some (Open k) ->
+    step c s (ConnClosed p) = Some (s', ev, calls) -> In (UClosed p) ev.
+Proof. intros c s p k s' ev calls R. eapply step_conn_closed; eauto. apply (reachable_HInv c s R). Qed.
+
+Lemma C11_closed_on_user_close_pf :
+  forall (c : cfg) (s : st) (p : peer) (k : N) (s' : st) (ev : list uev) (calls : list call),
+    reachable c s -> ps s p = Some (Open k) ->
+    step c s (CmdClose p) = Some (s', ev, calls) -> In (UClosed p) ev.
+Proof. intros c s p k s' ev calls R. eapply step_cmd_close; eauto. apply (reachable_HInv c s R). Qed.
+
+Lemma C11_user_view_is_protocol_view_pf :
+  forall (c : cfg) (s : st), reachable c s ->
+    (forall p, hopen s p = is_open (ps s p)) /\ (forall p k, ps s p = Some (Open k) -> hsink s p = Some k).
+Proof. intros c s R. destruct (reachable_HInv c s R) as [A B _]. auto. Qed.
+
+Lemma C11_delivered_close_kills_nothing_pf :
+  forall (c : cfg) (s : st) (o : op) (s1 : st) (ev : list uev) (cl : list call) (s2 : st) (dr : list peer) (ks : list N),
+    reachable c s -> main_handler c s o = Some (s1, ev, cl) -> drain s1 ev = (s2, dr, ks) -> ks = [].
+Proof. intros c s o s1 ev cl s2 dr ks R. eapply step_kills_nothing. apply (reachable_HInv c s R). Qed.
 
 Lemma C11_no_stuck_pf :
   forall (c : cfg) (ops : list op), snd (run c init ops) = true.
@@ -134,9 +174,9 @@ Proof.
   exists s1, s2, s3, ev, cl. subst. repeat split; auto.
 Qed.
 
-Lemma reachable_GInv c s : reachable c s -> GInv s.
+Lemma reachable_GSInv c s : reachable c s -> GSInv s.
 Proof.
-  induction 1 as [|s o s' ev cl R G S]; [apply GInv_init|eapply step_GInv; eauto].
+  induction 1 as [|s o s' ev cl R G S]; [apply GS_init|eapply step_GS; eauto].
 Qed.
 
 Lemma C11_lazy_queue_lifecycle_only_pf : forall (c : cfg) (cap : nat) (gs : list lop) x,
